@@ -98,4 +98,51 @@ CLAIMED["C08"] = dict(
     technique="TLA+ symbolic blinding algebra + TLC invariants + TLC trace validation of interned IDs with an independent HKDF/XMD reference",
     ref="5/C08")
 
+_ISS = ("Issuance.tla models the four issuance protocols as one transition system over symbolic cryptography (VOPRF with batch DLEQ "
+        "proofs, blind RSA, the HPKE/AEAD layer of type 3), with clients, issuers, a network and an attacker applying the mutation "
+        "alphabet to responses; ClientFinalize is the code's sequence of checks. ")
+CLAIMED["C01"] = dict(
+    text=_ISS + "TLC checks HonestAccepted/OnlyGoodTokens per type and HonestCompletes (liveness under weak fairness, no state "
+         "constraint). Complete honest runs of all four types - request marshalled, unmarshalled by the issuer, evaluated, response "
+         "finalized - over challenge lengths, batch sizes 1..513 and origin lengths are recorded and validated by TLC: completion, the "
+         "exact token layout at byte level (Messages.tla, digests supplied by the harness) and validity under the issuer key "
+         "(independent oracle: circl FullEvaluate / crypto/rsa.VerifyPSS over an input concatenated by the harness).",
+    note="Keys, nonces, challenges and blinds are sampled; RSA keys are 2048-bit. SHA-256 digests are supplied next to the data.",
+    technique="TLA+ protocol spec + TLC safety and liveness + TLC trace validation of recorded honest runs over the wire with byte-level token layout",
+    ref="5/C01")
+CLAIMED["C02"] = dict(
+    text=_ISS + "TLC checks OnlyGoodTokens, ListedMutationsRejected and ForeignKeyRejected over all attacker choices. Recorded runs "
+         "with one mutation of the real response bytes (each bit of every response field, foreign key, foreign request, drop / "
+         "duplicate / swap / every permutation of batch elements, an element of another batch, truncations, extensions, random "
+         "strings) are validated by TLC, which rebuilds the symbolic run, applies the logged mutation and requires the library's "
+         "verdict to equal FinalizeCheck; any token output must pass the independent oracle and carry the request's fields.",
+    note="Coverage of 'all responses' is the closure of the mutation alphabet plus random strings. A corrupted response is accepted "
+         "by a correct client with probability <= 2^-100.",
+    technique="TLA+ protocol spec with attacker + TLC model checking + TLC trace validation of recorded mutated runs against the spec's finalize checks",
+    ref="5/C02")
+CLAIMED["C07"] = dict(
+    text="Issuance.tla states the rate-limited issuer's Evaluate as its chain of checks (RLAccepts) and what a bit flip in each "
+         "field breaks (RLFlip); TLC checks EveryFlipRejected. Recorded Evaluate calls on an honest request, on every single-bit "
+         "change of it, on look-alike unregistered origins, foreign issuer, foreign signer, foreign contents, missing signature, "
+         "trailing data, foreign request key, non-parsing inner plaintext and an AAD without the request key (sealed and signed by "
+         "the harness itself with go-hpke and the ECDSA fork) are validated by TLC: a response exists iff every link holds.",
+    note="The request class is known to the harness by construction. Rejection of corrupted requests can fail spuriously only with negligible probability.",
+    technique="TLA+ check-chain spec + TLC invariant + TLC trace validation of recorded Evaluate calls over every bit of a request and crafted requests",
+    ref="5/C07")
+CLAIMED["C10"] = dict(
+    text=_ISS + "TLC checks VerifyExact. Recorded Verify calls of type-1 and type-5 issuers on honest tokens and altered ones (each "
+         "bit of each field, type field, other key, other type, field-length shifts, short/long/empty fields, authenticator "
+         "prefixes) are validated by TLC: verdict = independent FullEvaluate comparison, honest accepted, listed alterations rejected.",
+    note="The reference verdict uses circl's FullEvaluate over bytes concatenated by the harness.",
+    technique="TLA+ protocol spec + TLC invariant + TLC trace validation of recorded Verify calls on altered tokens",
+    ref="5/C10")
+CLAIMED["C11"] = dict(
+    text=_ISS + "TLC checks TokenIgnoresBlind. A matrix of deterministic runs (types 1, 2, 5; keys; nonce/challenge pairs; salts; a "
+         "blind pool with edge encodings) is recorded with interned request/token bytes and validated by a stateful trace "
+         "specification: equal arguments => equal request, different blind => different request, equal (key, nonce, challenge, "
+         "salt) => equal token for all blind pairs; the three Rust interop vectors are reproduced byte for byte.",
+    note="Blinds are a finite pool; the Rust vectors are those shipped in the repository.",
+    technique="TLA+ protocol spec + TLC invariant + stateful TLC trace validation of a deterministic-issuance matrix and interop vectors",
+    ref="5/C11")
+
 NOT_YET = "check not built yet in this round (see DESIGN.md section 11 for the build order); no claim is made"
